@@ -29,6 +29,7 @@ pub struct Scenario {
 }
 
 thread_local! {
+    static EVENT_INTERVAL: std::cell::Cell<u32> = const { std::cell::Cell::new(61) };
     /// the run this thread is executing (for the crash oracle)
     static CURRENT: RefCell<Option<(&'static Scenario, RunInput)>> = const { RefCell::new(None) };
     static PANICS: RefCell<Vec<String>> = const { RefCell::new(Vec::new()) };
@@ -151,12 +152,13 @@ pub fn execute(scen: &'static Scenario, input: RunInput) -> RunOutput {
     let sched = SchedMode::for_run(&input);
     let reorderings = std::rc::Rc::new(std::cell::Cell::new(0u64));
     let sched_sig = std::rc::Rc::new(std::cell::Cell::new(0u64));
+    let sched_devs: std::rc::Rc<RefCell<Vec<(u64, u64)>>> = Default::default();
     let mut builder = tokio::runtime::Builder::new_current_thread();
     builder
         .enable_time()
         .start_paused(true)
         .rng_seed(tokio::runtime::RngSeed::from_bytes(&seed.to_le_bytes()));
-    sched.install(seed, &mut builder, reorderings.clone(), sched_sig.clone());
+    sched.install(seed, &mut builder, reorderings.clone(), sched_sig.clone(), sched_devs.clone(), input.sched_explicit.clone());
     let rt = builder.build().unwrap();
     let run = scen.run;
     let result = std::panic::catch_unwind(std::panic::AssertUnwindSafe(|| {
@@ -222,6 +224,10 @@ pub fn execute(scen: &'static Scenario, input: RunInput) -> RunOutput {
     // the schedule mode is a run parameter like any other: reported, and shrunk towards FIFO
     if !out.params.iter().any(|p| p.0 == "sched") {
         out.params.push(("sched".into(), sched as i64, 0, 3));
+        // (informational, fixed by the mode and the seed: task polls between two turns of the
+        // timer driver and of the scenario's main future)
+        let ei = if sched == SchedMode::Fifo { 61 } else { EVENT_INTERVAL.with(|e| e.get()) as i64 };
+        out.params.push(("sched_event_interval".into(), ei, ei, ei));
     }
     *out.counts.entry(format!("sched_mode_{}", sched.name())).or_default() += 1;
     *out.counts.entry("sched_reordered_polls".into()).or_default() += reorderings.get();
@@ -229,6 +235,7 @@ pub fn execute(scen: &'static Scenario, input: RunInput) -> RunOutput {
         out.nontrivial = true;
     }
     out.sched_sig = sched_sig.get();
+    out.sched_devs = std::mem::take(&mut *sched_devs.borrow_mut());
     out
 }
 
@@ -282,7 +289,16 @@ impl SchedMode {
             SchedMode::Random
         }
     }
-    fn install(self, seed: u64, builder: &mut tokio::runtime::Builder, reorderings: std::rc::Rc<std::cell::Cell<u64>>, sig: std::rc::Rc<std::cell::Cell<u64>>) {
+    #[allow(clippy::too_many_arguments)]
+    fn install(
+        self,
+        seed: u64,
+        builder: &mut tokio::runtime::Builder,
+        reorderings: std::rc::Rc<std::cell::Cell<u64>>,
+        sig: std::rc::Rc<std::cell::Cell<u64>>,
+        devs: std::rc::Rc<RefCell<Vec<(u64, u64)>>>,
+        explicit: Option<BTreeMap<u64, u64>>,
+    ) {
         use rand::Rng;
         if self == SchedMode::Fifo {
             tokio::runtime::sim_sched::set_picker(None);
@@ -292,8 +308,9 @@ impl SchedMode {
         // how many tasks run between two visits of the timer driver / the main future
         let ei = [1u32, 2, 3, 5, 8, 13, 31, 61][rng.gen_range(0..8)];
         builder.event_interval(ei);
+        EVENT_INTERVAL.with(|e| e.set(ei));
         let p_swap = [1.0 / 64.0, 1.0 / 16.0, 1.0 / 4.0][rng.gen_range(0..3)];
-        tokio::runtime::sim_sched::set_picker(Some(Box::new(SeededPicker { mode: self, rng, p_swap, reorderings, sig, decisions: 0 })));
+        tokio::runtime::sim_sched::set_picker(Some(Box::new(SeededPicker { mode: self, rng, p_swap, reorderings, sig, decisions: 0, devs, explicit })));
     }
 }
 
@@ -305,12 +322,17 @@ struct SeededPicker {
     /// running hash over (decision index, queue length, choice) of every out-of-order decision
     sig: std::rc::Rc<std::cell::Cell<u64>>,
     decisions: u64,
+    /// every deviation from FIFO made in this run: (decision index, choice)
+    devs: std::rc::Rc<RefCell<Vec<(u64, u64)>>>,
+    /// explicit schedule: the only deviations to make (decision index -> choice)
+    explicit: Option<BTreeMap<u64, u64>>,
 }
 
 impl SeededPicker {
     fn note(&mut self, len: usize, k: usize) {
         self.decisions += 1;
         if k != 0 {
+            self.devs.borrow_mut().push((self.decisions, k as u64));
             self.reorderings.set(self.reorderings.get() + 1);
             let mut h = crate::choice::RunHash(self.sig.get() ^ 0xcbf2_9ce4_8422_2325);
             h.push_u64(self.decisions);
@@ -323,6 +345,11 @@ impl SeededPicker {
 impl tokio::runtime::sim_sched::Picker for SeededPicker {
     fn pick(&mut self, len: usize) -> usize {
         use rand::Rng;
+        if let Some(map) = &self.explicit {
+            let k = map.get(&(self.decisions + 1)).map(|k| (*k as usize).min(len - 1)).unwrap_or(0);
+            self.note(len, k);
+            return k;
+        }
         let k = match self.mode {
             SchedMode::Fifo => 0,
             SchedMode::RareSwap => {
@@ -346,6 +373,11 @@ impl tokio::runtime::sim_sched::Picker for SeededPicker {
     }
     fn defer_main(&mut self, _queued: usize) -> bool {
         use rand::Rng;
+        if let Some(map) = &self.explicit {
+            let d = map.get(&(self.decisions + 1)).map(|k| *k != 0).unwrap_or(false);
+            self.note(usize::MAX >> 33, d as usize);
+            return d;
+        }
         let d = match self.mode {
             SchedMode::Fifo => false,
             SchedMode::RareSwap => self.rng.gen_bool(self.p_swap),
@@ -862,6 +894,68 @@ pub fn minimise(scen: &'static Scenario, tier: Tier, seed: u64, index: u64, v: &
             }
         }
     }
+    // 1b. the schedule: make the deviations from FIFO explicit and ddmin over them
+    if steps < budget {
+        let mut rec = best.clone();
+        rec.sched_explicit = None;
+        steps += 1;
+        let cur = execute(scen, rec);
+        if same_class(&cur, v).is_some() && !cur.sched_devs.is_empty() {
+            let mut devs: Vec<(u64, u64)> = cur.sched_devs.clone();
+            let try_sched = |set: &[(u64, u64)], cur: &RunInput, steps: &mut usize| -> Option<(RunInput, Violation)> {
+                let mut inp = cur.clone();
+                inp.sched_explicit = Some(set.iter().cloned().collect());
+                *steps += 1;
+                let out = execute(scen, inp.clone());
+                same_class(&out, v).map(|vv| (inp, vv))
+            };
+            if let Some((inp, vv)) = try_sched(&devs, &best, &mut steps) {
+                best = inp;
+                best_v = vv;
+                if let Some((inp, vv)) = try_sched(&[], &best, &mut steps) {
+                    best = inp;
+                    best_v = vv;
+                    devs.clear();
+                }
+                let mut n = 2usize;
+                while devs.len() >= 2 && steps < budget {
+                    let chunk = devs.len().div_ceil(n);
+                    let mut reduced = false;
+                    for i in 0..n {
+                        let lo = i * chunk;
+                        if lo >= devs.len() {
+                            break;
+                        }
+                        let hi = (lo + chunk).min(devs.len());
+                        let complement: Vec<(u64, u64)> = devs[..lo].iter().chain(devs[hi..].iter()).cloned().collect();
+                        if let Some((inp, vv)) = try_sched(&complement, &best, &mut steps) {
+                            devs = complement;
+                            best = inp;
+                            best_v = vv;
+                            n = (n - 1).max(2);
+                            reduced = true;
+                            break;
+                        }
+                        if steps >= budget {
+                            break;
+                        }
+                    }
+                    if !reduced {
+                        if n >= devs.len() {
+                            break;
+                        }
+                        n = (n * 2).min(devs.len());
+                    }
+                }
+                if devs.len() == 1 && steps < budget {
+                    if let Some((inp, vv)) = try_sched(&[], &best, &mut steps) {
+                        best = inp;
+                        best_v = vv;
+                    }
+                }
+            }
+        }
+    }
     // 2. parameters towards their lower bound, in recorded order
     let params = base.params.clone();
     for (name, val, lo, _hi) in params {
@@ -872,6 +966,10 @@ pub fn minimise(scen: &'static Scenario, tier: Tier, seed: u64, index: u64, v: &
         // still fire in explicit mode
         let explicit_faults = matches!(&best.faults, FaultMode::Explicit(s) if !s.is_empty());
         if explicit_faults && (name == "lossy" || name == "faulty") {
+            continue;
+        }
+        // (an explicit schedule belongs to the schedule mode it was recorded under)
+        if name == "sched" && best.sched_explicit.as_ref().map(|m| !m.is_empty()).unwrap_or(false) {
             continue;
         }
         let mut cur = *best.overrides.get(&name).unwrap_or(&val);
@@ -931,6 +1029,8 @@ pub fn write_replay(
         "overrides": input.overrides,
         "fault_mode": mode,
         "faults": faults,
+        "schedule_mode": if input.sched_explicit.is_some() { "explicit" } else { "seeded" },
+        "schedule": input.sched_explicit.as_ref().map(|m| m.iter().map(|(i, k)| json!([i, k])).collect::<Vec<_>>()),
         "class": v.class,
         "key": v.key,
         "message": v.msg,
@@ -975,6 +1075,17 @@ pub fn replay(all: &[&'static Scenario], path: &str) -> i32 {
     if doc["fault_mode"] == "explicit" {
         let set: BTreeSet<FaultKey> = serde_json::from_value(doc["faults"].clone()).unwrap_or_default();
         input.faults = FaultMode::Explicit(set);
+    }
+    if doc["schedule_mode"] == "explicit" {
+        let mut m = BTreeMap::new();
+        if let Some(a) = doc["schedule"].as_array() {
+            for e in a {
+                if let (Some(i), Some(k)) = (e[0].as_u64(), e[1].as_u64()) {
+                    m.insert(i, k);
+                }
+            }
+        }
+        input.sched_explicit = Some(m);
     }
     input.record_log = true;
     let class = doc["class"].as_str().unwrap_or("").to_string();
